@@ -252,6 +252,21 @@ class Model:
                     return True
         return False
 
+    def _conflict_above(self, layer_sn: str, colls: Iterable[str], name: str) -> bool:
+        """a proper ancestor of layer_sn (or layer_sn itself while it overrides the name locally) sees the name as several
+        different objects inherited from parents of equal priority"""
+        for l in [layer_sn] + self.ancestors(layer_sn):
+            for c in colls:
+                inherited_only = dict(self.view(l, c))
+                local = [o for o in self.local_objs(l, c) if o["sn"] == name]
+                if l == layer_sn and not local:
+                    continue  # the context layer itself: the ambiguity is the reference's own problem (FAIL)
+                if local:
+                    continue  # overridden in that layer: no conflict there
+                if len(inherited_only.get(name, [])) > 1:
+                    return True
+        return False
+
     def _parents_compete(self, layer_sn: str, colls: Iterable[str], name: str) -> bool:
         """somewhere on the way up from layer_sn the name is inherited from parents of different types and not overridden
         by a layer closer to layer_sn"""
@@ -302,6 +317,10 @@ class Model:
             for c in colls:
                 for o in self.view(ctx_layer, c).get(name, []):
                     cands.append((o, c))
+            if self._conflict_above(ctx_layer, colls, name):
+                # an ancestor inherits the name as different objects from two parents of equal priority: that layer cannot be
+                # built (value-inheritance conflict, property C09) whatever the reference itself would find
+                return ("DONTCARE", "unresolvable inheritance conflict in an ancestor layer")
             if self._parents_compete(ctx_layer, colls, name):
                 # the same short name inherited from an ECU-SHARED-DATA parent and from a parent of another type: which one
                 # wins (odxtools: the shared data) is not stated by the property
